@@ -34,7 +34,7 @@ WantVisAs(line, cfg, tag) ==
   ELSE WantVis(line, cfg)
 
 \* The implementation-shaped model, run on the same history (drift report, never a verdict)
-IS(b) == INSTANCE Impl_Stream WITH Buf <- b, Fixes <- {"D1", "D14", "D2", "D18", "D19", "D20", "D21"}
+IS(b) == INSTANCE Impl_Stream WITH Buf <- b, ColorOnly <- FALSE, Fixes <- {"D1", "D14", "D2", "D18", "D19", "D20", "D21", "D23"}
 RECURSIVE ImplRun(_, _, _, _)
 ImplRun(b, h, st, k) == IF k > Len(h) THEN st ELSE ImplRun(b, h, IS(b)!Step(st, k, h[k]), k + 1)
 ImplRows(e) == IS(e.cfg.buf)!Finish(ImplRun(e.cfg.buf, e.lines, IS(e.cfg.buf)!InitS, 1)).w
